@@ -56,10 +56,21 @@ theorem C10_multi_full_false :
     ((E.eventLoop 1 (E.evalEvents 0) (E.evalEvents 1) [0, 1] s).te.reverse.map (fun x => decide (x < 32/100)))
       = [false, true] := by decide +kernel
 
-/-- the full-strength completeness statement also fails on the model of the current code for a crossing that lies within
-`event_duration` after the start of the step (recorded finding D22): a terminal component crossing at 10⁻⁹ inside the step
-[0, 1], `event_duration = 10⁻⁸`: nothing is reported and the run is not stopped -/
-theorem C10_near_start_full_false :
+/-- a crossing within `event_duration` after the start of an accepted step **is** reported (and a terminal one stops the run)
+unless that step starts at `t0` or at the event just located — the repaired guard (fix for finding D22): component crossing at
+1 + 10⁻⁹ inside the step [1, 2] of a run over [0, 3], `event_duration = 10⁻⁸` -/
+theorem C10_near_start_reported :
+    let E : RodasEnv ℚ := { O := ratO, spacing := fun _ => 0, uround := 0, tiny := 0, half := 1/2, c128 := 128,
+                            tspan := [0, 3], opt := ⟨1/5, 6, 6, none, none, false, 1/100000000⟩,
+                            events := [⟨1 + 1/1000000000, 0, true⟩] }
+    let s : RodasState ℚ := { E.init with t := 2, told := 1 }
+    (E.eventLoop 1 (E.evalEvents 1) (E.evalEvents 2) [0] s).te = [1 + 1/1000000000] ∧
+    (E.eventLoop 1 (E.evalEvents 1) (E.evalEvents 2) [0] s).stop = true := by
+  decide +kernel
+
+/-- the guard still applies where it is meant to: directly after the start of the run (a restart from an event state) a sign
+change within `event_duration` is taken to be that event and is not reported again -/
+theorem C10_start_guard :
     let E : RodasEnv ℚ := { O := ratO, spacing := fun _ => 0, uround := 0, tiny := 0, half := 1/2, c128 := 128,
                             tspan := [0, 1], opt := ⟨1/5, 6, 6, none, none, false, 1/100000000⟩,
                             events := [⟨1/1000000000, 0, true⟩] }
